@@ -690,17 +690,17 @@ Section GetShape.
   Variable depsf : rt -> str -> list str.
   Variable f : nat.
 
-  (** the inner [fix each] of [resolve_deps] *)
-  Fixpoint deps_loop (l : list rdep) (st : rt) (b : bag) (acc : list value) : (rt * bag) * result (list value) :=
+  (** the inner [fix each] of [resolve_deps]: every dependency is evaluated; the first error is kept in [err] *)
+  Fixpoint deps_loop (l : list rdep) (st : rt) (b : bag) (acc : list value) (err : option str) : (rt * bag) * result (list value) :=
     match l with
-    | [] => ((st, b), ROk (rev acc))
+    | [] => ((st, b), fin err (rev acc))
     | d :: l' => match resolve_dep depsf f st b d with
-                 | ((st', b'), ROk v) => deps_loop l' st' b' (v :: acc)
-                 | ((st', b'), RErr e) => ((st', b'), RErr e)
+                 | ((st', b'), ROk v) => deps_loop l' st' b' (v :: acc) err
+                 | ((st', b'), RErr e) => deps_loop l' st' b' acc (keep_err err e)
                  end
     end.
 
-  Lemma resolve_deps_unfold st b ds : resolve_deps depsf (S f) st b ds = deps_loop ds st b [].
+  Lemma resolve_deps_unfold st b ds : resolve_deps depsf (S f) st b ds = deps_loop ds st b [] None.
   Proof. reflexivity. Qed.
 
   Lemma resolve_dep_unfold st b d :
@@ -731,25 +731,29 @@ Section GetShape.
       end
     end.
 
-  (** setServiceFields *)
-  Fixpoint fields_loop (l : list (str * rdep)) (st : rt) (b : bag) (v : value) : (rt * bag) * result value :=
+  (** setServiceFields: every field is evaluated; the first error is kept in [err] *)
+  Fixpoint fields_loop (l : list (str * rdep)) (st : rt) (b : bag) (v : value) (err : option str) : (rt * bag) * result value :=
     match l with
-    | [] => ((st, b), ROk v)
+    | [] => ((st, b), fin err v)
     | (n, dp) :: l' =>
       match resolve_dep depsf f st b dp with
-      | ((st', b'), ROk x) => match obj_set v n x with ROk v' => fields_loop l' st' b' v' | RErr e => ((st', b'), RErr e) end
-      | ((st', b'), RErr e) => ((st', b'), RErr e)
+      | ((st', b'), ROk x) => match obj_set v n x with ROk v' => fields_loop l' st' b' v' err | RErr e => fields_loop l' st' b' v (keep_err err e) end
+      | ((st', b'), RErr e) => fields_loop l' st' b' v (keep_err err e)
       end
     end.
 
-  (** executeServiceCalls *)
-  Fixpoint calls_loop (l : list rcall) (st : rt) (b : bag) (v : value) : (rt * bag) * result value :=
+  (** executeServiceCalls: every call is evaluated, except after a failing wither; the first error is kept in [err] *)
+  Fixpoint calls_loop (l : list rcall) (st : rt) (b : bag) (v : value) (err : option str) : (rt * bag) * result value :=
     match l with
-    | [] => ((st, b), ROk v)
+    | [] => ((st, b), fin err v)
     | c :: l' =>
       match resolve_deps depsf f st b (rc_deps c) with
-      | ((st', b'), ROk args) => match obj_call v (rc_method c) args with ROk v' => calls_loop l' st' b' v' | RErr e => ((st', b'), RErr e) end
-      | ((st', b'), RErr e) => ((st', b'), RErr e)
+      | ((st', b'), ROk args) =>
+        match obj_call v (rc_method c) args with
+        | ROk v' => calls_loop l' st' b' v' err
+        | RErr e => if rc_wither c then ((st', b'), RErr (match err with Some e0 => e0 | None => e end)) else calls_loop l' st' b' v (keep_err err e)
+        end
+      | ((st', b'), RErr e) => calls_loop l' st' b' v (keep_err err e)
       end
     end.
 
@@ -786,11 +790,11 @@ Section GetShape.
         match r1 with
         | RErr e => ((st1, b1), RErr e)
         | ROk v1 =>
-          let '((st2, b2), r2) := fields_loop (sd_fields d) st1 b1 v1 in
+          let '((st2, b2), r2) := fields_loop (sd_fields d) st1 b1 v1 None in
           match r2 with
           | RErr e => ((st2, b2), RErr e)
           | ROk v2 =>
-            let '((st3, b3), r3) := calls_loop (sd_calls d) st2 b2 v2 in
+            let '((st3, b3), r3) := calls_loop (sd_calls d) st2 b2 v2 None in
             match r3 with
             | RErr e => ((st3, b3), RErr e)
             | ROk v3 =>
@@ -811,10 +815,10 @@ Section GetShape.
     match create d st b with
     | (sb1, RErr e) => (sb1, RErr e)
     | ((st1, b1), ROk v1) =>
-      match fields_loop (sd_fields d) st1 b1 v1 with
+      match fields_loop (sd_fields d) st1 b1 v1 None with
       | (sb2, RErr e) => (sb2, RErr e)
       | ((st2, b2), ROk v2) =>
-        match calls_loop (sd_calls d) st2 b2 v2 with
+        match calls_loop (sd_calls d) st2 b2 v2 None with
         | (sb3, RErr e) => (sb3, RErr e)
         | ((st3, b3), ROk v3) => decs_loop d id (rt_decorators st3) st3 b3 v3
         end
@@ -840,8 +844,8 @@ Section GetShape.
     rewrite get_unfold_raw. destruct (lookup id (rt_services st)) as [d|]; [|reflexivity]. cbv zeta.
     destruct (cached_of (resolve_scope depsf st id) st b id); [reflexivity|]. unfold build.
     destruct (create d st b) as [[st1 b1] [v1|e]]; [|reflexivity].
-    destruct (fields_loop (sd_fields d) st1 b1 v1) as [[st2 b2] [v2|e]]; [|reflexivity].
-    destruct (calls_loop (sd_calls d) st2 b2 v2) as [[st3 b3] [v3|e]]; [|reflexivity].
+    destruct (fields_loop (sd_fields d) st1 b1 v1 None) as [[st2 b2] [v2|e]]; [|reflexivity].
+    destruct (calls_loop (sd_calls d) st2 b2 v2 None) as [[st3 b3] [v3|e]]; [|reflexivity].
     destruct (decs_loop d id (rt_decorators st3) st3 b3 v3) as [[st4 b4] [v4|e]]; reflexivity.
   Qed.
 
@@ -1077,6 +1081,57 @@ Proof.
   f_equal. apply IH. cbn [length] in H. lia.
 Qed.
 
+(** ** accumulated errors: the first one is kept *)
+Definition or_else (a b : option str) : option str := match a with Some _ => a | None => b end.
+Definition is_ok {A} (r : result A) : bool := match r with ROk _ => true | RErr _ => false end.
+Definition is_obj (v : value) : bool := match v with VObj _ _ _ _ _ => true | _ => false end.
+(** the error of the first failing element *)
+Fixpoint first_err {A} (rs : list (result A)) : option str :=
+  match rs with [] => None | RErr e :: _ => Some e | ROk _ :: rs' => first_err rs' end.
+(** the values of the succeeding elements *)
+Fixpoint oks {A} (rs : list (result A)) : list A :=
+  match rs with [] => [] | ROk a :: rs' => a :: oks rs' | RErr _ :: rs' => oks rs' end.
+
+Lemma keep_err_or_else err e : keep_err err e = or_else err (Some e).
+Proof. destruct err; reflexivity. Qed.
+Lemma or_else_none err : or_else err None = err.
+Proof. destruct err; reflexivity. Qed.
+Lemma or_else_keep err e x : or_else (keep_err err e) x = or_else err (Some e).
+Proof. destruct err; reflexivity. Qed.
+Lemma fin_some {A} e (v : A) : fin (Some e) v = RErr e.
+Proof. reflexivity. Qed.
+Lemma fin_ok {A} err (v w : A) : fin err v = ROk w <-> err = None /\ v = w.
+Proof. destruct err; cbn [fin]; split; try (intros [? ?]); try discriminate; [intros H; inversion H; auto|subst; reflexivity]. Qed.
+
+Lemma first_err_spec {A} (rs : list (result A)) e :
+  first_err rs = Some e <-> exists rs1 rs2, rs = rs1 ++ RErr e :: rs2 /\ forallb is_ok rs1 = true.
+Proof.
+  induction rs as [|[a|e0] rs IH]; cbn [first_err].
+  - split; [discriminate|]. intros [[|r rs1] [rs2 [E _]]]; discriminate E.
+  - rewrite IH. split.
+    + intros [rs1 [rs2 [-> H]]]. exists (ROk a :: rs1), rs2. split; [reflexivity|exact H].
+    + intros [[|r rs1] [rs2 [E H]]]; [discriminate E|]. inversion E; subst. exists rs1, rs2. split; [reflexivity|].
+      cbn [forallb is_ok andb] in H. exact H.
+  - split.
+    + intros H; inversion H; subst. exists [], rs. split; reflexivity.
+    + intros [[|r rs1] [rs2 [E H]]]; [inversion E; reflexivity|]. inversion E; subst. discriminate H.
+Qed.
+
+Lemma oks_length {A} (rs : list (result A)) : length (oks rs) <= length rs.
+Proof. induction rs as [|[?|?] rs IH]; cbn [oks length]; lia. Qed.
+
+Lemma first_err_none {A} (rs : list (result A)) : first_err rs = None <-> rs = map ROk (oks rs).
+Proof.
+  induction rs as [|[a|e0] rs IH]; cbn [first_err oks map].
+  - split; reflexivity.
+  - rewrite IH. split; [intros H; f_equal; exact H|intros H; injection H as H; exact H].
+  - split; [discriminate|]. intros H. exfalso. assert (L : length (RErr e0 :: rs) = length (map ROk (oks rs))) by (rewrite <- H; reflexivity).
+    cbn [length] in L. rewrite map_length in L. pose proof (oks_length rs). lia.
+Qed.
+
+Lemma first_err_oks {A} (vs : list A) : first_err (map ROk vs) = None /\ oks (map ROk vs) = vs.
+Proof. induction vs as [|v vs [IH1 IH2]]; cbn [map first_err oks]; [split; reflexivity|]. rewrite IH1, IH2. split; reflexivity. Qed.
+
 Section Creation.
   Variable depsf : rt -> str -> list str.
   Variable f : nat.
@@ -1090,22 +1145,90 @@ Section Creation.
   Lemma deps_ok_length st b l st' b' vs : deps_ok st b l st' b' vs -> length vs = length l.
   Proof. induction 1; cbn [length]; congruence. Qed.
 
-  Lemma deps_loop_ok l : forall st b acc st' b' vs,
-    deps_loop depsf f l st b acc = ((st', b'), ROk vs) <-> exists ws, deps_ok st b l st' b' ws /\ vs = rev acc ++ ws.
+  (** [resolve_dep] threaded through ALL the dependencies, whatever their results *)
+  Fixpoint deps_thread (l : list rdep) (st : rt) (b : bag) : (rt * bag) * list (result value) :=
+    match l with
+    | [] => ((st, b), [])
+    | d :: l' => match resolve_dep depsf f st b d with
+                 | ((st', b'), r) => match deps_thread l' st' b' with (sb, rs) => (sb, r :: rs) end
+                 end
+    end.
+
+  Lemma deps_thread_length l : forall st b, length (snd (deps_thread l st b)) = length l.
   Proof.
-    induction l as [|d l IH]; intros st b acc st' b' vs; cbn [deps_loop].
-    - split.
-      + intros H. inversion H; subst. exists []. split; [constructor|]. rewrite app_nil_r. reflexivity.
-      + intros [ws [C ->]]. inversion C; subst. rewrite app_nil_r. reflexivity.
-    - destruct (resolve_dep depsf f st b d) as [[st1 b1] [v1|e]] eqn:G.
-      + rewrite IH. split.
-        * intros [ws [C ->]]. exists (v1 :: ws). split; [econstructor; eassumption|].
-          cbn [rev]. rewrite <- app_assoc. reflexivity.
-        * intros [ws [C ->]]. inversion C; subst.
-          match goal with H1 : resolve_dep _ _ _ _ _ = (_, ROk ?w), H2 : resolve_dep _ _ _ _ _ = _ |- _ => rewrite H1 in H2; inversion H2; subst end.
-          eexists. split; [eassumption|]. cbn [rev]. rewrite <- app_assoc. reflexivity.
-      + split; [discriminate|]. intros [ws [C _]]. inversion C; subst. congruence.
+    induction l as [|d l IH]; intros st b; cbn [deps_thread]; [reflexivity|].
+    destruct (resolve_dep depsf f st b d) as [[st1 b1] r]. specialize (IH st1 b1).
+    destruct (deps_thread l st1 b1) as [sb rs]. cbn [snd length] in *. congruence.
   Qed.
+
+  (** all succeed iff the thread consists of [ROk]s *)
+  Lemma deps_ok_thread l : forall st b st' b' vs,
+    deps_ok st b l st' b' vs <-> deps_thread l st b = ((st', b'), map ROk vs).
+  Proof.
+    induction l as [|d l IH]; intros st b st' b' vs; cbn [deps_thread].
+    - split.
+      + intros H; inversion H; subst. reflexivity.
+      + destruct vs; intros H; inversion H; subst. constructor.
+    - destruct (resolve_dep depsf f st b d) as [[st1 b1] r] eqn:G. split.
+      + intros H; inversion H; subst.
+        match goal with H1 : resolve_dep _ _ _ _ _ = (_, ROk ?w) |- _ => rewrite H1 in G; inversion G; subst end.
+        match goal with H1 : deps_ok _ _ l _ _ _ |- _ => apply IH in H1; rewrite H1 end. reflexivity.
+      + destruct (deps_thread l st1 b1) as [[st2 b2] rs] eqn:T. destruct vs as [|v vs]; intros H; inversion H; subst.
+        econstructor; [exact G|]. apply IH. exact T.
+  Qed.
+
+  (** the loop: the state is the one after ALL evaluations, the error is the first one *)
+  Lemma deps_loop_thread l : forall st b acc err,
+    deps_loop depsf f l st b acc err =
+    (fst (deps_thread l st b),
+     fin (or_else err (first_err (snd (deps_thread l st b)))) (rev acc ++ oks (snd (deps_thread l st b)))).
+  Proof.
+    induction l as [|d l IH]; intros st b acc err; cbn [deps_loop deps_thread].
+    - cbn [fst snd first_err oks]. rewrite app_nil_r, or_else_none. reflexivity.
+    - destruct (resolve_dep depsf f st b d) as [[st1 b1] [v|e]]; rewrite IH;
+        destruct (deps_thread l st1 b1) as [sb rs]; cbn [fst snd first_err oks].
+      + cbn [rev]. rewrite <- app_assoc. reflexivity.
+      + rewrite or_else_keep. reflexivity.
+  Qed.
+
+  (** [resolve_deps] evaluates every dependency: its final state / bag is the one of the complete thread, whether it succeeds
+      or fails; it fails iff some element fails, with the error of the FIRST failing element; otherwise it returns the values in order *)
+  Theorem resolve_deps_all_evaluated st b ds :
+    resolve_deps depsf (S f) st b ds =
+    (fst (deps_thread ds st b),
+     match first_err (snd (deps_thread ds st b)) with Some e => RErr e | None => ROk (oks (snd (deps_thread ds st b))) end).
+  Proof. rewrite resolve_deps_unfold, deps_loop_thread. cbn [or_else rev app]. destruct (first_err _); reflexivity. Qed.
+
+  Corollary resolve_deps_state st b ds : fst (resolve_deps depsf (S f) st b ds) = fst (deps_thread ds st b).
+  Proof. rewrite resolve_deps_all_evaluated. reflexivity. Qed.
+
+  Corollary resolve_deps_err_iff st b ds e :
+    snd (resolve_deps depsf (S f) st b ds) = RErr e <->
+    exists rs1 rs2, snd (deps_thread ds st b) = rs1 ++ RErr e :: rs2 /\ forallb is_ok rs1 = true.
+  Proof.
+    rewrite resolve_deps_all_evaluated. cbn [snd]. rewrite <- first_err_spec.
+    destruct (first_err (snd (deps_thread ds st b))); split; intros H; inversion H; reflexivity.
+  Qed.
+
+  (** once an error has been recorded the loop ends with it *)
+  Lemma deps_loop_some l st b acc e : snd (deps_loop depsf f l st b acc (Some e)) = RErr e.
+  Proof. rewrite deps_loop_thread. reflexivity. Qed.
+
+  Lemma deps_loop_ok_gen l : forall st b acc err st' b' vs,
+    deps_loop depsf f l st b acc err = ((st', b'), ROk vs) <-> err = None /\ exists ws, deps_ok st b l st' b' ws /\ vs = rev acc ++ ws.
+  Proof.
+    intros st b acc err st' b' vs. rewrite deps_loop_thread. split.
+    - intros H. inversion H as [[H1 H2]]. apply fin_ok in H2. destruct H2 as [H2 <-].
+      destruct err as [e|]; [discriminate H2|]. split; [reflexivity|]. cbn [or_else] in H2. apply first_err_none in H2.
+      exists (oks (snd (deps_thread l st b))). split; [|reflexivity]. apply deps_ok_thread.
+      rewrite <- H2, <- H1. destruct (deps_thread l st b); reflexivity.
+    - intros [-> [ws [C ->]]]. apply deps_ok_thread in C. rewrite C. cbn [fst snd or_else].
+      destruct (first_err_oks ws) as [-> ->]. reflexivity.
+  Qed.
+
+  Lemma deps_loop_ok l st b acc st' b' vs :
+    deps_loop depsf f l st b acc None = ((st', b'), ROk vs) <-> exists ws, deps_ok st b l st' b' ws /\ vs = rev acc ++ ws.
+  Proof. rewrite deps_loop_ok_gen. split; [intros [_ H]; exact H|intros H; split; [reflexivity|exact H]]. Qed.
 
   (** [resolve_deps] resolves left to right and returns the values in order *)
   Theorem resolve_deps_ok st b ds st' b' vs :
@@ -1116,10 +1239,82 @@ Section Creation.
     - intros C. exists vs. split; [exact C|reflexivity].
   Qed.
 
+  (** the first failing dependency gives the error; the ones after it are evaluated all the same *)
+  Lemma deps_loop_err l1 d l2 : forall st b acc st1 b1 vs st2 b2 e,
+    deps_ok st b l1 st1 b1 vs -> resolve_dep depsf f st1 b1 d = ((st2, b2), RErr e) ->
+    deps_loop depsf f (l1 ++ d :: l2) st b acc None = (fst (deps_thread l2 st2 b2), RErr e).
+  Proof.
+    induction l1 as [|d1 l1 IH]; intros st b acc st1 b1 vs st2 b2 e C G; inversion C; subst; cbn [app deps_loop].
+    - rewrite G. cbn [keep_err]. rewrite deps_loop_thread. reflexivity.
+    - match goal with H : resolve_dep _ _ _ _ _ = (_, ROk _) |- _ => rewrite H end. eapply IH; eassumption.
+  Qed.
+
+  Corollary resolve_deps_err l1 d l2 st b st1 b1 vs st2 b2 e :
+    deps_ok st b l1 st1 b1 vs -> resolve_dep depsf f st1 b1 d = ((st2, b2), RErr e) ->
+    resolve_deps depsf (S f) st b (l1 ++ d :: l2) = (fst (deps_thread l2 st2 b2), RErr e).
+  Proof. intros C G. rewrite resolve_deps_unfold. eapply deps_loop_err; eassumption. Qed.
+
   (** ** [fields_loop] applies [obj_set] left to right *)
+
+  (** the result of the loop from the names and the results of the dependencies *)
+  Fixpoint fields_res (ns : list str) (rs : list (result value)) (v : value) (err : option str) : result value :=
+    match ns, rs with
+    | n :: ns', ROk x :: rs' =>
+      match obj_set v n x with ROk v' => fields_res ns' rs' v' err | RErr e => fields_res ns' rs' v (keep_err err e) end
+    | n :: ns', RErr e :: rs' => fields_res ns' rs' v (keep_err err e)
+    | _, _ => fin err v
+    end.
+
+  (** every field's dependency is evaluated: the final state / bag is the one of the complete thread, success or failure *)
+  Theorem fields_loop_all_evaluated l : forall st b v err,
+    fields_loop depsf f l st b v err =
+    (fst (deps_thread (map snd l) st b), fields_res (map fst l) (snd (deps_thread (map snd l) st b)) v err).
+  Proof.
+    induction l as [|[n dp] l IH]; intros st b v err; cbn [fields_loop map fst snd deps_thread]; [reflexivity|].
+    destruct (resolve_dep depsf f st b dp) as [[st1 b1] [x|e]].
+    - destruct (obj_set v n x) as [v'|e] eqn:O; rewrite IH; destruct (deps_thread (map snd l) st1 b1) as [sb rs];
+        cbn [fst snd fields_res]; rewrite O; reflexivity.
+    - rewrite IH; destruct (deps_thread (map snd l) st1 b1) as [sb rs]; reflexivity.
+  Qed.
+
+  Lemma fields_res_some ns : forall rs v e, fields_res ns rs v (Some e) = RErr e.
+  Proof.
+    induction ns as [|n ns IH]; intros [|[x|e'] rs] v e; cbn [fields_res keep_err]; try reflexivity; [|apply IH].
+    destruct (obj_set v n x); apply IH.
+  Qed.
+
+  Lemma set_fields_cons n x kvs fl : set_fields ((n, x) :: kvs) fl = set_fields kvs (assoc_set n x fl).
+  Proof. reflexivity. Qed.
+
+  (** on an object: the error is the recorded one, else the one of the first failing dependency; else all the fields are set *)
+  Lemma fields_res_obj ns : forall rs o a fl lg sr err, length ns = length rs ->
+    fields_res ns rs (VObj o a fl lg sr) err =
+    match or_else err (first_err rs) with
+    | Some e => RErr e
+    | None => ROk (VObj o a (set_fields (combine ns (oks rs)) fl) lg sr)
+    end.
+  Proof.
+    induction ns as [|n ns IH]; intros [|[x|e] rs] o a fl lg sr err HL; cbn [length] in HL; try discriminate HL.
+    - cbn [fields_res first_err oks combine]. rewrite or_else_none. destruct err; reflexivity.
+    - cbn [fields_res obj_set first_err oks combine]. rewrite IH by lia. rewrite set_fields_cons. reflexivity.
+    - cbn [fields_res first_err]. rewrite keep_err_or_else. destruct err as [e0|]; cbn [or_else]; rewrite fields_res_some; reflexivity.
+  Qed.
+
+  Corollary fields_loop_obj l st b o a fl lg sr err :
+    fields_loop depsf f l st b (VObj o a fl lg sr) err =
+    (fst (deps_thread (map snd l) st b),
+     match or_else err (first_err (snd (deps_thread (map snd l) st b))) with
+     | Some e => RErr e
+     | None => ROk (VObj o a (set_fields (combine (map fst l) (oks (snd (deps_thread (map snd l) st b)))) fl) lg sr)
+     end).
+  Proof. rewrite fields_loop_all_evaluated, fields_res_obj; [reflexivity|]. rewrite deps_thread_length, !map_length. reflexivity. Qed.
+
+  Lemma fields_loop_some l st b v e : snd (fields_loop depsf f l st b v (Some e)) = RErr e.
+  Proof. rewrite fields_loop_all_evaluated. apply fields_res_some. Qed.
+
   Theorem fields_loop_fold l : forall st b st' b' xs o a fl lg sr,
     deps_ok st b (map snd l) st' b' xs ->
-    fields_loop depsf f l st b (VObj o a fl lg sr) =
+    fields_loop depsf f l st b (VObj o a fl lg sr) None =
     ((st', b'), ROk (fold_left set_pure (combine (map fst l) xs) (VObj o a fl lg sr))).
   Proof.
     induction l as [|[n dp] l IH]; intros st b st' b' xs o a fl lg sr C; cbn [map snd fst] in C; inversion C; subst.
@@ -1130,27 +1325,29 @@ Section Creation.
 
   Corollary fields_loop_ok l st b st' b' xs o a fl lg sr :
     deps_ok st b (map snd l) st' b' xs ->
-    fields_loop depsf f l st b (VObj o a fl lg sr) =
+    fields_loop depsf f l st b (VObj o a fl lg sr) None =
     ((st', b'), ROk (VObj o a (set_fields (combine (map fst l) xs) fl) lg sr)).
   Proof. intros C. rewrite (fields_loop_fold l _ _ _ _ _ _ _ _ _ _ C). rewrite fold_set_pure. reflexivity. Qed.
 
-  (** a field whose dependency fails stops the loop with that error *)
+  (** the first field whose dependency fails gives the error; the remaining fields are evaluated all the same *)
   Lemma fields_loop_err l1 n dp l2 : forall st b st1 b1 xs st2 b2 e o a fl lg sr,
     deps_ok st b (map snd l1) st1 b1 xs -> resolve_dep depsf f st1 b1 dp = ((st2, b2), RErr e) ->
-    fields_loop depsf f (l1 ++ (n, dp) :: l2) st b (VObj o a fl lg sr) = ((st2, b2), RErr e).
+    fields_loop depsf f (l1 ++ (n, dp) :: l2) st b (VObj o a fl lg sr) None = (fst (deps_thread (map snd l2) st2 b2), RErr e).
   Proof.
     induction l1 as [|[n1 d1] l1 IH]; intros st b st1 b1 xs st2 b2 e o a fl lg sr C G; cbn [map snd] in C; inversion C; subst;
       cbn [app fields_loop].
-    - rewrite G. reflexivity.
+    - rewrite G. cbn [keep_err]. rewrite fields_loop_all_evaluated, fields_res_some. reflexivity.
     - match goal with H : resolve_dep _ _ _ _ _ = (_, ROk _) |- _ => rewrite H end. cbn [obj_set]. eapply IH; eassumption.
   Qed.
 
-  (** setting a field on something that is not an object is an error *)
+  (** setting a field on something that is not an object is an error (and the remaining fields are evaluated) *)
   Lemma fields_loop_nonobj n dp l st b st' b' x v :
     (forall o a fl lg sr, v <> VObj o a fl lg sr) -> resolve_dep depsf f st b dp = ((st', b'), ROk x) ->
-    fields_loop depsf f ((n, dp) :: l) st b v = ((st', b'), RErr (s "cannot set field " ++ n)).
+    fields_loop depsf f ((n, dp) :: l) st b v None = (fst (deps_thread (map snd l) st' b'), RErr (s "cannot set field " ++ n)).
   Proof.
-    intros Hv G. cbn [fields_loop]. rewrite G. destruct v; try reflexivity. exfalso. eapply Hv; reflexivity.
+    intros Hv G. cbn [fields_loop]. rewrite G.
+    destruct v; try (cbn [obj_set keep_err]; rewrite fields_loop_all_evaluated, fields_res_some; reflexivity).
+    exfalso. eapply Hv; reflexivity.
   Qed.
 
   (** ** [calls_loop] applies [obj_call] left to right *)
@@ -1163,38 +1360,135 @@ Section Creation.
   Lemma calls_ok_length st b l st' b' argss : calls_ok st b l st' b' argss -> length l = length argss.
   Proof. induction 1; cbn [length]; congruence. Qed.
 
+  (** [resolve_deps] threaded through the calls; with [stopw] the thread stops after a wither whose arguments resolved
+      (on a receiver that is not an object such a wither fails, and a failing wither breaks the loop) *)
+  Fixpoint calls_thread (stopw : bool) (l : list rcall) (st : rt) (b : bag) : (rt * bag) * list (result (list value)) :=
+    match l with
+    | [] => ((st, b), [])
+    | c :: l' => match resolve_deps depsf f st b (rc_deps c) with
+                 | ((st', b'), r) =>
+                   if stopw && rc_wither c && is_ok r then ((st', b'), [r])
+                   else match calls_thread stopw l' st' b' with (sb, rs) => (sb, r :: rs) end
+                 end
+    end.
+
+  Lemma calls_thread_length l : forall st b, length (snd (calls_thread false l st b)) = length l.
+  Proof.
+    induction l as [|c l IH]; intros st b; cbn [calls_thread andb]; [reflexivity|].
+    destruct (resolve_deps depsf f st b (rc_deps c)) as [[st1 b1] r]. specialize (IH st1 b1).
+    destruct (calls_thread false l st1 b1) as [sb rs]. cbn [snd length] in *. congruence.
+  Qed.
+
+  Lemma calls_ok_thread l : forall st b st' b' argss,
+    calls_ok st b l st' b' argss <-> calls_thread false l st b = ((st', b'), map ROk argss).
+  Proof.
+    induction l as [|c l IH]; intros st b st' b' argss; cbn [calls_thread andb].
+    - split.
+      + intros H; inversion H; subst. reflexivity.
+      + destruct argss; intros H; inversion H; subst. constructor.
+    - destruct (resolve_deps depsf f st b (rc_deps c)) as [[st1 b1] r] eqn:G. split.
+      + intros H; inversion H; subst.
+        match goal with H1 : resolve_deps _ _ _ _ _ = (_, ROk ?w) |- _ => rewrite H1 in G; inversion G; subst end.
+        match goal with H1 : calls_ok _ _ l _ _ _ |- _ => apply IH in H1; rewrite H1 end. reflexivity.
+      + destruct (calls_thread false l st1 b1) as [[st2 b2] rs] eqn:T. destruct argss as [|args argss]; intros H; inversion H; subst.
+        econstructor; [exact G|]. apply IH. exact T.
+  Qed.
+
+  (** every call's arguments are evaluated -- except after a failing wither: the final state / bag is the one of the thread *)
+  Theorem calls_loop_all_evaluated l : forall st b v err,
+    fst (calls_loop depsf f l st b v err) = fst (calls_thread (negb (is_obj v)) l st b).
+  Proof.
+    induction l as [|c l IH]; intros st b v err; cbn [calls_loop calls_thread]; [reflexivity|].
+    destruct (resolve_deps depsf f st b (rc_deps c)) as [[st1 b1] [args|e]]; cbn [is_ok].
+    - rewrite Bool.andb_true_r.
+      destruct v; cbn [obj_call is_obj negb andb];
+        try (destruct (rc_wither c); [reflexivity|]);
+        rewrite IH; cbn [is_obj negb]; match goal with |- context [calls_thread ?w l st1 b1] => destruct (calls_thread w l st1 b1) end; reflexivity.
+    - rewrite Bool.andb_false_r, IH. destruct (calls_thread (negb (is_obj v)) l st1 b1). reflexivity.
+  Qed.
+
+  Lemma calls_loop_some l : forall st b v e, snd (calls_loop depsf f l st b v (Some e)) = RErr e.
+  Proof.
+    induction l as [|c l IH]; intros st b v e; cbn [calls_loop]; [reflexivity|].
+    destruct (resolve_deps depsf f st b (rc_deps c)) as [[st1 b1] [args|e1]]; [|apply IH].
+    destruct (obj_call v (rc_method c) args); [apply IH|]. destruct (rc_wither c); [reflexivity|apply IH].
+  Qed.
+
+  Lemma call_pure_obj o a fl lg sr c args :
+    call_pure (VObj o a fl lg sr) (c, args) = VObj o (a ++ VStr (s "<" ++ rc_method c ++ s ">") :: args) fl (lg ++ [rc_method c]) sr.
+  Proof. reflexivity. Qed.
+
+  (** on an object no call can fail by itself: everything is evaluated, the error is the recorded one or the one of the
+      first call whose arguments fail *)
+  Theorem calls_loop_obj l : forall st b o a fl lg sr err,
+    calls_loop depsf f l st b (VObj o a fl lg sr) err =
+    (fst (calls_thread false l st b),
+     match or_else err (first_err (snd (calls_thread false l st b))) with
+     | Some e => RErr e
+     | None => ROk (fold_left call_pure (combine l (oks (snd (calls_thread false l st b)))) (VObj o a fl lg sr))
+     end).
+  Proof.
+    induction l as [|c l IH]; intros st b o a fl lg sr err; cbn [calls_loop calls_thread andb].
+    - cbn [fst snd first_err oks combine fold_left]. rewrite or_else_none. destruct err; reflexivity.
+    - destruct (resolve_deps depsf f st b (rc_deps c)) as [[st1 b1] [args|e]]; cbn [obj_call]; rewrite IH;
+        destruct (calls_thread false l st1 b1) as [sb rs]; cbn [fst snd first_err oks combine fold_left].
+      + rewrite call_pure_obj. reflexivity.
+      + rewrite or_else_keep. destruct err; reflexivity.
+  Qed.
+
+  (** on anything else the very first call fails: with the error of its arguments, or because nothing can be called *)
+  Definition call_err (c : rcall) (r : result (list value)) : str :=
+    match r with ROk _ => s "cannot call " ++ rc_method c | RErr e => e end.
+
+  Lemma calls_loop_nonobj_res l st b v err : is_obj v = false ->
+    snd (calls_loop depsf f l st b v err) =
+    fin (or_else err (match l with c :: _ => Some (call_err c (snd (resolve_deps depsf f st b (rc_deps c)))) | [] => None end)) v.
+  Proof.
+    intros Hv. destruct l as [|c l]; cbn [calls_loop]; [rewrite or_else_none; reflexivity|].
+    destruct (resolve_deps depsf f st b (rc_deps c)) as [[st1 b1] [args|e]]; cbn [snd call_err].
+    - assert (O : obj_call v (rc_method c) args = RErr (s "cannot call " ++ rc_method c)) by (destruct v; try reflexivity; discriminate Hv).
+      rewrite O. destruct (rc_wither c); [destruct err; reflexivity|].
+      destruct err as [e0|]; cbn [keep_err or_else fin]; apply calls_loop_some.
+    - destruct err as [e0|]; cbn [keep_err or_else fin]; apply calls_loop_some.
+  Qed.
+
   Theorem calls_loop_fold st b l st' b' argss : calls_ok st b l st' b' argss ->
     forall o a fl lg sr,
-    calls_loop depsf f l st b (VObj o a fl lg sr) =
+    calls_loop depsf f l st b (VObj o a fl lg sr) None =
     ((st', b'), ROk (fold_left call_pure (combine l argss) (VObj o a fl lg sr))).
   Proof.
     induction 1 as [st b|st b c l st1 b1 args st2 b2 argss G _ IH]; intros o a fl lg sr; [reflexivity|].
-    cbn [calls_loop]. rewrite G. cbn [obj_call combine fold_left]. unfold call_pure at 2. cbn [obj_call fst snd]. apply IH.
+    cbn [calls_loop]. rewrite G. cbn [obj_call combine fold_left]. rewrite call_pure_obj. apply IH.
   Qed.
 
   (** the log of the result is the old log ++ the methods in order; the arguments are appended, each call behind a ["<method>"] marker *)
   Corollary calls_loop_ok st b l st' b' argss o a fl lg sr : calls_ok st b l st' b' argss ->
-    calls_loop depsf f l st b (VObj o a fl lg sr) =
+    calls_loop depsf f l st b (VObj o a fl lg sr) None =
     ((st', b'), ROk (VObj o (a ++ concat (map call_entry (combine l argss))) fl (lg ++ map rc_method l) sr)).
   Proof.
     intros C. rewrite (calls_loop_fold _ _ _ _ _ _ C), fold_call_pure.
     rewrite <- (map_map fst rc_method), (map_fst_combine l argss (calls_ok_length _ _ _ _ _ _ C)). reflexivity.
   Qed.
 
+  (** the first call whose arguments fail gives the error; the remaining calls are evaluated all the same *)
   Lemma calls_loop_err l1 c l2 : forall st b st1 b1 argss st2 b2 e o a fl lg sr,
     calls_ok st b l1 st1 b1 argss -> resolve_deps depsf f st1 b1 (rc_deps c) = ((st2, b2), RErr e) ->
-    calls_loop depsf f (l1 ++ c :: l2) st b (VObj o a fl lg sr) = ((st2, b2), RErr e).
+    calls_loop depsf f (l1 ++ c :: l2) st b (VObj o a fl lg sr) None = (fst (calls_thread false l2 st2 b2), RErr e).
   Proof.
     induction l1 as [|c1 l1 IH]; intros st b st1 b1 argss st2 b2 e o a fl lg sr C G; inversion C; subst; cbn [app calls_loop].
-    - rewrite G. reflexivity.
+    - rewrite G. cbn [keep_err]. rewrite calls_loop_obj. reflexivity.
     - match goal with H : resolve_deps _ _ _ _ _ = (_, ROk _) |- _ => rewrite H end. cbn [obj_call]. eapply IH; eassumption.
   Qed.
 
+  (** a call on something that is not an object is an error; a wither stops there, otherwise the remaining calls are evaluated *)
   Lemma calls_loop_nonobj c l st b st' b' args v :
     (forall o a fl lg sr, v <> VObj o a fl lg sr) -> resolve_deps depsf f st b (rc_deps c) = ((st', b'), ROk args) ->
-    calls_loop depsf f (c :: l) st b v = ((st', b'), RErr (s "cannot call " ++ rc_method c)).
+    calls_loop depsf f (c :: l) st b v None =
+    ((if rc_wither c then (st', b') else fst (calls_thread true l st' b')), RErr (s "cannot call " ++ rc_method c)).
   Proof.
-    intros Hv G. cbn [calls_loop]. rewrite G. destruct v; try reflexivity. exfalso. eapply Hv; reflexivity.
+    intros Hv G. cbn [calls_loop]. rewrite G.
+    destruct v; try (exfalso; eapply Hv; reflexivity); cbn [obj_call keep_err]; (destruct (rc_wither c); [reflexivity|]);
+      match goal with |- ?x = _ => rewrite (surjective_pairing x) end; rewrite calls_loop_some, calls_loop_all_evaluated; reflexivity.
   Qed.
 
   (** ** [decs_loop]: one wrapping per applicable decorator, in the order of the decorator list *)
@@ -1484,33 +1778,31 @@ Section LoopFrames.
       + inversion H; subst; exact F1.
   Qed.
 
-  Lemma deps_loop_frame l : forall st b acc st' b' r, deps_loop depsf f l st b acc = ((st', b'), r) -> gframe st st'.
+  Lemma deps_loop_frame l : forall st b acc err st' b' r, deps_loop depsf f l st b acc err = ((st', b'), r) -> gframe st st'.
   Proof.
-    induction l as [|d l IH]; intros st b acc st' b' r H; cbn [deps_loop] in H.
+    induction l as [|d l IH]; intros st b acc err st' b' r H; cbn [deps_loop] in H.
     - inversion H; subst; apply gframe_refl.
-    - destruct (resolve_dep depsf f st b d) as [[st1 b1] [v|e]] eqn:G; pose proof (Hd _ _ _ _ _ _ G) as F1.
-      + eapply gframe_trans; [exact F1|eapply IH; exact H].
-      + inversion H; subst; exact F1.
+    - destruct (resolve_dep depsf f st b d) as [[st1 b1] [v|e]] eqn:G; pose proof (Hd _ _ _ _ _ _ G) as F1;
+        (eapply gframe_trans; [exact F1|eapply IH; exact H]).
   Qed.
 
-  Lemma fields_loop_frame l : forall st b v st' b' r, fields_loop depsf f l st b v = ((st', b'), r) -> gframe st st'.
+  Lemma fields_loop_frame l : forall st b v err st' b' r, fields_loop depsf f l st b v err = ((st', b'), r) -> gframe st st'.
   Proof.
-    induction l as [|[n dp] l IH]; intros st b v st' b' r H; cbn [fields_loop] in H.
+    induction l as [|[n dp] l IH]; intros st b v err st' b' r H; cbn [fields_loop] in H.
     - inversion H; subst; apply gframe_refl.
     - destruct (resolve_dep depsf f st b dp) as [[st1 b1] [x|e]] eqn:G; pose proof (Hd _ _ _ _ _ _ G) as F1.
-      + destruct (obj_set v n x) as [v'|e]; [|inversion H; subst; exact F1].
-        eapply gframe_trans; [exact F1|eapply IH; exact H].
-      + inversion H; subst; exact F1.
+      + destruct (obj_set v n x) as [v'|e]; (eapply gframe_trans; [exact F1|eapply IH; exact H]).
+      + eapply gframe_trans; [exact F1|eapply IH; exact H].
   Qed.
 
-  Lemma calls_loop_frame l : forall st b v st' b' r, calls_loop depsf f l st b v = ((st', b'), r) -> gframe st st'.
+  Lemma calls_loop_frame l : forall st b v err st' b' r, calls_loop depsf f l st b v err = ((st', b'), r) -> gframe st st'.
   Proof.
-    induction l as [|c l IH]; intros st b v st' b' r H; cbn [calls_loop] in H.
+    induction l as [|c l IH]; intros st b v err st' b' r H; cbn [calls_loop] in H.
     - inversion H; subst; apply gframe_refl.
     - destruct (resolve_deps depsf f st b (rc_deps c)) as [[st1 b1] [x|e]] eqn:G; pose proof (Hds _ _ _ _ _ _ G) as F1.
-      + destruct (obj_call v (rc_method c) x) as [v'|e]; [|inversion H; subst; exact F1].
-        eapply gframe_trans; [exact F1|eapply IH; exact H].
-      + inversion H; subst; exact F1.
+      + destruct (obj_call v (rc_method c) x) as [v'|e]; [eapply gframe_trans; [exact F1|eapply IH; exact H]|].
+        destruct (rc_wither c); [inversion H; subst; exact F1|]. eapply gframe_trans; [exact F1|eapply IH; exact H].
+      + eapply gframe_trans; [exact F1|eapply IH; exact H].
   Qed.
 
   Lemma decs_loop_frame d id l : forall st b v st' b' r, decs_loop depsf f d id l st b v = ((st', b'), r) -> gframe st st'.
@@ -1540,10 +1832,10 @@ Section LoopFrames.
     unfold build.
     destruct (create depsf f d st b) as [[st1 b1] [v1|e]] eqn:C; pose proof (create_frame _ _ _ _ _ _ C) as F1;
       [|intros H; inversion H; subst; exact F1].
-    destruct (fields_loop depsf f (sd_fields d) st1 b1 v1) as [[st2 b2] [v2|e]] eqn:Fl;
-      pose proof (gframe_trans _ _ _ F1 (fields_loop_frame _ _ _ _ _ _ _ Fl)) as F2; [|intros H; inversion H; subst; exact F2].
-    destruct (calls_loop depsf f (sd_calls d) st2 b2 v2) as [[st3 b3] [v3|e]] eqn:Cl;
-      pose proof (gframe_trans _ _ _ F2 (calls_loop_frame _ _ _ _ _ _ _ Cl)) as F3; [|intros H; inversion H; subst; exact F3].
+    destruct (fields_loop depsf f (sd_fields d) st1 b1 v1 None) as [[st2 b2] [v2|e]] eqn:Fl;
+      pose proof (gframe_trans _ _ _ F1 (fields_loop_frame _ _ _ _ _ _ _ _ Fl)) as F2; [|intros H; inversion H; subst; exact F2].
+    destruct (calls_loop depsf f (sd_calls d) st2 b2 v2 None) as [[st3 b3] [v3|e]] eqn:Cl;
+      pose proof (gframe_trans _ _ _ F2 (calls_loop_frame _ _ _ _ _ _ _ _ Cl)) as F3; [|intros H; inversion H; subst; exact F3].
     intros H. eapply gframe_trans; [exact F3|eapply decs_loop_frame; exact H].
   Qed.
 End LoopFrames.
@@ -1583,14 +1875,14 @@ Proof. apply (get_frames depsf f). Qed.
 Lemma tagged_ext st st' t : rt_services st' = rt_services st -> tagged st' t = tagged st t.
 Proof. intros E. unfold tagged. rewrite E. reflexivity. Qed.
 
-(** closed versions of the loop frame lemmas *)
+(** closed versions of the loop frame lemmas (the error accumulator is implicit: the positional uses keep their arity) *)
 Lemma tag_loop_frame' depsf f l st b acc st' b' r : tag_loop depsf f l st b acc = ((st', b'), r) -> gframe st st'.
 Proof. apply (tag_loop_frame depsf f (get_frame depsf f)). Qed.
-Lemma deps_loop_frame' depsf f l st b acc st' b' r : deps_loop depsf f l st b acc = ((st', b'), r) -> gframe st st'.
+Lemma deps_loop_frame' depsf f l st b acc {err} st' b' r : deps_loop depsf f l st b acc err = ((st', b'), r) -> gframe st st'.
 Proof. apply (deps_loop_frame depsf f (resolve_dep_frame depsf f)). Qed.
-Lemma fields_loop_frame' depsf f l st b v st' b' r : fields_loop depsf f l st b v = ((st', b'), r) -> gframe st st'.
+Lemma fields_loop_frame' depsf f l st b v {err} st' b' r : fields_loop depsf f l st b v err = ((st', b'), r) -> gframe st st'.
 Proof. apply (fields_loop_frame depsf f (resolve_dep_frame depsf f)). Qed.
-Lemma calls_loop_frame' depsf f l st b v st' b' r : calls_loop depsf f l st b v = ((st', b'), r) -> gframe st st'.
+Lemma calls_loop_frame' depsf f l st b v {err} st' b' r : calls_loop depsf f l st b v err = ((st', b'), r) -> gframe st st'.
 Proof. apply (calls_loop_frame depsf f (resolve_deps_frame depsf f)). Qed.
 Lemma decs_loop_frame' depsf f d id l st b v st' b' r : decs_loop depsf f d id l st b v = ((st', b'), r) -> gframe st st'.
 Proof. apply (decs_loop_frame depsf f (resolve_deps_frame depsf f)). Qed.
@@ -1601,6 +1893,17 @@ Proof. apply (build_frame depsf f (resolve_dep_frame depsf f) (resolve_deps_fram
 
 Lemma not_oof_err {A B} e : @not_oof A (RErr e) -> @not_oof B (RErr e).
 Proof. intros H E. apply H. injection E as ->. reflexivity. Qed.
+
+(** the accumulated error is not "out of fuel" *)
+Definition err_noof (err : option str) : Prop := match err with Some e => e <> s "out of fuel" | None => True end.
+Lemma not_oof_str {A} e : @not_oof A (RErr e) -> e <> s "out of fuel".
+Proof. intros H E. apply H. rewrite E. reflexivity. Qed.
+Lemma str_not_oof {A} e : e <> s "out of fuel" -> @not_oof A (RErr e).
+Proof. intros H E. apply H. injection E as E. exact E. Qed.
+Lemma fin_noof {A} err (v : A) : err_noof err -> not_oof (fin err v).
+Proof. destruct err as [e|]; cbn [err_noof fin]; intros H; [intros E; injection E as E; exact (H E)|apply ok_not_oof]. Qed.
+Lemma keep_err_noof err e : err_noof err -> e <> s "out of fuel" -> err_noof (keep_err err e).
+Proof. destruct err; cbn [keep_err err_noof]; auto. Qed.
 
 Lemma obj_set_err v n x e : obj_set v n x = RErr e -> e = s "cannot set field " ++ n.
 Proof. destruct v; cbn [obj_set]; intros H; inversion H; reflexivity. Qed.
@@ -1655,45 +1958,56 @@ Section GetFuel.
 
   Lemma deps_loop_noof f l :
     (forall st b d st' b' r, gframe st0 st -> In d l -> resolve_dep depsf f st b d = ((st', b'), r) -> not_oof r) ->
-    forall st b acc st' b' r, gframe st0 st -> deps_loop depsf f l st b acc = ((st', b'), r) -> not_oof r.
+    forall st b acc err st' b' r, gframe st0 st -> err_noof err -> deps_loop depsf f l st b acc err = ((st', b'), r) -> not_oof r.
   Proof.
-    induction l as [|d l IH]; intros Hn st b acc st' b' r F H; cbn [deps_loop] in H.
-    - inversion H; subst. apply ok_not_oof.
-    - destruct (resolve_dep depsf f st b d) as [[st1 b1] [v|e]] eqn:G.
-      + eapply IH; [| |exact H].
-        * intros sta ba m sta' ba' ra Fa Hin Ha. eapply Hn; [exact Fa|right; exact Hin|exact Ha].
-        * eapply gframe_trans; [exact F|eapply resolve_dep_frame; exact G].
-      + inversion H; subst. eapply not_oof_err. eapply Hn; [exact F|left; reflexivity|exact G].
+    induction l as [|d l IH]; intros Hn st b acc err st' b' r F He H; cbn [deps_loop] in H.
+    - inversion H; subst. apply fin_noof; exact He.
+    - assert (Hn' : forall st b d st' b' r, gframe st0 st -> In d l -> resolve_dep depsf f st b d = ((st', b'), r) -> not_oof r).
+      { intros sta ba m sta' ba' ra Fa Hin Ha. eapply Hn; [exact Fa|right; exact Hin|exact Ha]. }
+      destruct (resolve_dep depsf f st b d) as [[st1 b1] [v|e]] eqn:G;
+        pose proof (gframe_trans _ _ _ F (resolve_dep_frame _ _ _ _ _ _ _ _ G)) as F1.
+      + eapply IH; [exact Hn'|exact F1|exact He|exact H].
+      + eapply IH; [exact Hn'|exact F1| |exact H]. apply keep_err_noof; [exact He|].
+        apply (not_oof_str (A := value)). eapply Hn; [exact F|left; reflexivity|exact G].
   Qed.
 
   Lemma fields_loop_noof f l :
     (forall st b nd st' b' r, gframe st0 st -> In nd l -> resolve_dep depsf f st b (snd nd) = ((st', b'), r) -> not_oof r) ->
-    forall st b v st' b' r, gframe st0 st -> fields_loop depsf f l st b v = ((st', b'), r) -> not_oof r.
+    forall st b v err st' b' r, gframe st0 st -> err_noof err -> fields_loop depsf f l st b v err = ((st', b'), r) -> not_oof r.
   Proof.
-    induction l as [|[n dp] l IH]; intros Hn st b v st' b' r F H; cbn [fields_loop] in H.
-    - inversion H; subst. apply ok_not_oof.
-    - destruct (resolve_dep depsf f st b dp) as [[st1 b1] [x|e]] eqn:G.
+    induction l as [|[n dp] l IH]; intros Hn st b v err st' b' r F He H; cbn [fields_loop] in H.
+    - inversion H; subst. apply fin_noof; exact He.
+    - assert (Hn' : forall st b nd st' b' r, gframe st0 st -> In nd l -> resolve_dep depsf f st b (snd nd) = ((st', b'), r) -> not_oof r).
+      { intros sta ba m sta' ba' ra Fa Hin Ha. eapply Hn; [exact Fa|right; exact Hin|exact Ha]. }
+      destruct (resolve_dep depsf f st b dp) as [[st1 b1] [x|e]] eqn:G;
+        pose proof (gframe_trans _ _ _ F (resolve_dep_frame _ _ _ _ _ _ _ _ G)) as F1.
       + destruct (obj_set v n x) as [v'|e] eqn:O.
-        * eapply IH; [| |exact H].
-          -- intros sta ba m sta' ba' ra Fa Hin Ha. eapply Hn; [exact Fa|right; exact Hin|exact Ha].
-          -- eapply gframe_trans; [exact F|eapply resolve_dep_frame; exact G].
-        * inversion H; subst. apply obj_set_err in O. subst e. neq_oof.
-      + inversion H; subst. eapply (Hn st b (n, dp)); [exact F|left; reflexivity|exact G].
+        * eapply IH; [exact Hn'|exact F1|exact He|exact H].
+        * eapply IH; [exact Hn'|exact F1| |exact H]. apply keep_err_noof; [exact He|].
+          apply obj_set_err in O. subst e. intros Hoof; cbv in Hoof; discriminate Hoof.
+      + eapply IH; [exact Hn'|exact F1| |exact H]. apply keep_err_noof; [exact He|].
+        apply (not_oof_str (A := value)). eapply (Hn st b (n, dp)); [exact F|left; reflexivity|exact G].
   Qed.
 
   Lemma calls_loop_noof f l :
     (forall st b c st' b' r, gframe st0 st -> In c l -> resolve_deps depsf f st b (rc_deps c) = ((st', b'), r) -> not_oof r) ->
-    forall st b v st' b' r, gframe st0 st -> calls_loop depsf f l st b v = ((st', b'), r) -> not_oof r.
+    forall st b v err st' b' r, gframe st0 st -> err_noof err -> calls_loop depsf f l st b v err = ((st', b'), r) -> not_oof r.
   Proof.
-    induction l as [|c l IH]; intros Hn st b v st' b' r F H; cbn [calls_loop] in H.
-    - inversion H; subst. apply ok_not_oof.
-    - destruct (resolve_deps depsf f st b (rc_deps c)) as [[st1 b1] [x|e]] eqn:G.
+    induction l as [|c l IH]; intros Hn st b v err st' b' r F He H; cbn [calls_loop] in H.
+    - inversion H; subst. apply fin_noof; exact He.
+    - assert (Hn' : forall st b c st' b' r, gframe st0 st -> In c l -> resolve_deps depsf f st b (rc_deps c) = ((st', b'), r) -> not_oof r).
+      { intros sta ba m sta' ba' ra Fa Hin Ha. eapply Hn; [exact Fa|right; exact Hin|exact Ha]. }
+      destruct (resolve_deps depsf f st b (rc_deps c)) as [[st1 b1] [x|e]] eqn:G;
+        pose proof (gframe_trans _ _ _ F (resolve_deps_frame _ _ _ _ _ _ _ _ G)) as F1.
       + destruct (obj_call v (rc_method c) x) as [v'|e] eqn:O.
-        * eapply IH; [| |exact H].
-          -- intros sta ba m sta' ba' ra Fa Hin Ha. eapply Hn; [exact Fa|right; exact Hin|exact Ha].
-          -- eapply gframe_trans; [exact F|eapply resolve_deps_frame; exact G].
-        * inversion H; subst. apply obj_call_err in O. subst e. neq_oof.
-      + inversion H; subst. eapply not_oof_err. eapply Hn; [exact F|left; reflexivity|exact G].
+        * eapply IH; [exact Hn'|exact F1|exact He|exact H].
+        * apply obj_call_err in O. subst e.
+          assert (Hc : s "cannot call " ++ rc_method c <> s "out of fuel") by (intros Hoof; cbv in Hoof; discriminate Hoof).
+          destruct (rc_wither c).
+          -- inversion H; subst. apply str_not_oof. destruct err as [e0|]; [exact He|exact Hc].
+          -- eapply IH; [exact Hn'|exact F1| |exact H]. apply keep_err_noof; [exact He|exact Hc].
+      + eapply IH; [exact Hn'|exact F1| |exact H]. apply keep_err_noof; [exact He|].
+        apply (not_oof_str (A := list value)). eapply Hn; [exact F|left; reflexivity|exact G].
   Qed.
 
   Lemma decs_loop_noof f d id l :
@@ -1732,16 +2046,16 @@ Section GetFuel.
       - inversion C; subst. eapply not_oof_err. eapply Hds; [exact F|eapply Hc; reflexivity|exact G]. }
     pose proof (gframe_trans _ _ _ F (create_frame' _ _ _ _ _ _ _ _ C)) as F1.
     destruct r1 as [v1|e]; [|inversion H; subst; exact N1].
-    destruct (fields_loop depsf f (sd_fields d) st1 b1 v1) as [[st2 b2] r2] eqn:Fl.
+    destruct (fields_loop depsf f (sd_fields d) st1 b1 v1 None) as [[st2 b2] r2] eqn:Fl.
     assert (N2 : not_oof r2).
-    { eapply (fields_loop_noof f (sd_fields d)); [|exact F1|exact Fl].
+    { eapply (fields_loop_noof f (sd_fields d)); [|exact F1| |exact Fl]; [|exact I].
       intros sta ba nd sta' ba' ra Fa Hin Ha. eapply Hd; [exact Fa| |exact Ha].
       rewrite Forall_forall in Hfl. apply (Hfl nd Hin). }
     pose proof (gframe_trans _ _ _ F1 (fields_loop_frame' _ _ _ _ _ _ _ _ _ Fl)) as F2.
     destruct r2 as [v2|e]; [|inversion H; subst; exact N2].
-    destruct (calls_loop depsf f (sd_calls d) st2 b2 v2) as [[st3 b3] r3] eqn:Cl.
+    destruct (calls_loop depsf f (sd_calls d) st2 b2 v2 None) as [[st3 b3] r3] eqn:Cl.
     assert (N3 : not_oof r3).
-    { eapply (calls_loop_noof f (sd_calls d)); [|exact F2|exact Cl].
+    { eapply (calls_loop_noof f (sd_calls d)); [|exact F2| |exact Cl]; [|exact I].
       intros sta ba c sta' ba' ra Fa Hin Ha. eapply Hds; [exact Fa| |exact Ha].
       rewrite Forall_forall in Hcl. apply (Hcl c Hin). }
     pose proof (gframe_trans _ _ _ F2 (calls_loop_frame' _ _ _ _ _ _ _ _ _ Cl)) as F3.
@@ -1782,7 +2096,7 @@ Section GetFuel.
         * destruct (eval_pattern f st toks) as [st1 r1] eqn:E. inversion H; subst.
           eapply pattern_noof; [exact F| |exact E]. lia.
       + intros st b ds k st' b' r F Hk Hf H. rewrite resolve_deps_unfold in H.
-        eapply (deps_loop_noof f ds); [|exact F|exact H].
+        eapply (deps_loop_noof f ds); [|exact F| |exact H]; [|exact I].
         intros sta ba d sta' ba' ra Fa Hin Ha. eapply (IHd _ _ _ k); [exact Fa| |lia|exact Ha].
         rewrite Forall_forall in Hk. apply Hk. exact Hin.
   Qed.
@@ -1878,46 +2192,48 @@ Section LoopInv.
 
   Lemma deps_loop_inv l :
     (forall st b d st' b' r, gframe st0 st -> In d l -> resolve_dep depsf f st b d = ((st', b'), r) -> R st b st' b') ->
-    forall st b acc st' b' r, gframe st0 st -> deps_loop depsf f l st b acc = ((st', b'), r) -> R st b st' b'.
+    forall st b acc err st' b' r, gframe st0 st -> deps_loop depsf f l st b acc err = ((st', b'), r) -> R st b st' b'.
   Proof.
-    induction l as [|d l IH]; intros Hn st b acc st' b' r F H; cbn [deps_loop] in H.
+    induction l as [|d l IH]; intros Hn st b acc err st' b' r F H; cbn [deps_loop] in H.
     - inversion H; subst. apply R_admin; reflexivity.
     - destruct (resolve_dep depsf f st b d) as [[st1 b1] [v|e]] eqn:G;
-        pose proof (Hn _ _ _ _ _ _ F (or_introl eq_refl) G) as R1.
-      + eapply R_trans; [exact R1|]. eapply IH; [| |exact H].
-        * intros sta ba m sta' ba' ra Fa Hin Ha. eapply Hn; [exact Fa|right; exact Hin|exact Ha].
-        * eapply gframe_trans; [exact F|eapply resolve_dep_frame; exact G].
-      + inversion H; subst. exact R1.
+        pose proof (Hn _ _ _ _ _ _ F (or_introl eq_refl) G) as R1;
+        (eapply R_trans; [exact R1|]; eapply IH; [| |exact H];
+         [intros sta ba m sta' ba' ra Fa Hin Ha; eapply Hn; [exact Fa|right; exact Hin|exact Ha]
+         |eapply gframe_trans; [exact F|eapply resolve_dep_frame; exact G]]).
   Qed.
 
   Lemma fields_loop_inv l :
     (forall st b nd st' b' r, gframe st0 st -> In nd l -> resolve_dep depsf f st b (snd nd) = ((st', b'), r) -> R st b st' b') ->
-    forall st b v st' b' r, gframe st0 st -> fields_loop depsf f l st b v = ((st', b'), r) -> R st b st' b'.
+    forall st b v err st' b' r, gframe st0 st -> fields_loop depsf f l st b v err = ((st', b'), r) -> R st b st' b'.
   Proof.
-    induction l as [|[n dp] l IH]; intros Hn st b v st' b' r F H; cbn [fields_loop] in H.
+    induction l as [|[n dp] l IH]; intros Hn st b v err st' b' r F H; cbn [fields_loop] in H.
     - inversion H; subst. apply R_admin; reflexivity.
-    - destruct (resolve_dep depsf f st b dp) as [[st1 b1] [x|e]] eqn:G;
-        pose proof (Hn st b (n, dp) _ _ _ F (or_introl eq_refl) G) as R1.
-      + destruct (obj_set v n x) as [v'|e]; [|inversion H; subst; exact R1].
-        eapply R_trans; [exact R1|]. eapply IH; [| |exact H].
-        * intros sta ba m sta' ba' ra Fa Hin Ha. eapply Hn; [exact Fa|right; exact Hin|exact Ha].
-        * eapply gframe_trans; [exact F|eapply resolve_dep_frame; exact G].
-      + inversion H; subst. exact R1.
+    - assert (Hn' : forall st b nd st' b' r, gframe st0 st -> In nd l -> resolve_dep depsf f st b (snd nd) = ((st', b'), r) -> R st b st' b').
+      { intros sta ba m sta' ba' ra Fa Hin Ha. eapply Hn; [exact Fa|right; exact Hin|exact Ha]. }
+      destruct (resolve_dep depsf f st b dp) as [[st1 b1] [x|e]] eqn:G;
+        pose proof (Hn st b (n, dp) _ _ _ F (or_introl eq_refl) G) as R1;
+        pose proof (gframe_trans _ _ _ F (resolve_dep_frame _ _ _ _ _ _ _ _ G)) as F1.
+      + destruct (obj_set v n x) as [v'|e]; (eapply R_trans; [exact R1|]; eapply IH; [exact Hn'|exact F1|exact H]).
+      + eapply R_trans; [exact R1|]. eapply IH; [exact Hn'|exact F1|exact H].
   Qed.
 
   Lemma calls_loop_inv l :
     (forall st b c st' b' r, gframe st0 st -> In c l -> resolve_deps depsf f st b (rc_deps c) = ((st', b'), r) -> R st b st' b') ->
-    forall st b v st' b' r, gframe st0 st -> calls_loop depsf f l st b v = ((st', b'), r) -> R st b st' b'.
+    forall st b v err st' b' r, gframe st0 st -> calls_loop depsf f l st b v err = ((st', b'), r) -> R st b st' b'.
   Proof.
-    induction l as [|c l IH]; intros Hn st b v st' b' r F H; cbn [calls_loop] in H.
+    induction l as [|c l IH]; intros Hn st b v err st' b' r F H; cbn [calls_loop] in H.
     - inversion H; subst. apply R_admin; reflexivity.
-    - destruct (resolve_deps depsf f st b (rc_deps c)) as [[st1 b1] [x|e]] eqn:G;
-        pose proof (Hn _ _ _ _ _ _ F (or_introl eq_refl) G) as R1.
-      + destruct (obj_call v (rc_method c) x) as [v'|e]; [|inversion H; subst; exact R1].
-        eapply R_trans; [exact R1|]. eapply IH; [| |exact H].
-        * intros sta ba m sta' ba' ra Fa Hin Ha. eapply Hn; [exact Fa|right; exact Hin|exact Ha].
-        * eapply gframe_trans; [exact F|eapply resolve_deps_frame; exact G].
-      + inversion H; subst. exact R1.
+    - assert (Hn' : forall st b c st' b' r, gframe st0 st -> In c l -> resolve_deps depsf f st b (rc_deps c) = ((st', b'), r) -> R st b st' b').
+      { intros sta ba m sta' ba' ra Fa Hin Ha. eapply Hn; [exact Fa|right; exact Hin|exact Ha]. }
+      destruct (resolve_deps depsf f st b (rc_deps c)) as [[st1 b1] [x|e]] eqn:G;
+        pose proof (Hn _ _ _ _ _ _ F (or_introl eq_refl) G) as R1;
+        pose proof (gframe_trans _ _ _ F (resolve_deps_frame _ _ _ _ _ _ _ _ G)) as F1.
+      + destruct (obj_call v (rc_method c) x) as [v'|e].
+        * eapply R_trans; [exact R1|]. eapply IH; [exact Hn'|exact F1|exact H].
+        * destruct (rc_wither c); [inversion H; subst; exact R1|].
+          eapply R_trans; [exact R1|]. eapply IH; [exact Hn'|exact F1|exact H].
+      + eapply R_trans; [exact R1|]. eapply IH; [exact Hn'|exact F1|exact H].
   Qed.
 
   Lemma decs_loop_inv d id l :
@@ -1961,13 +2277,13 @@ Section LoopInv.
       - inversion C; subst. exact Ra. }
     pose proof (gframe_trans _ _ _ F (create_frame' _ _ _ _ _ _ _ _ C)) as F1.
     destruct r1 as [v1|e]; [|inversion H; subst; exact R1].
-    destruct (fields_loop depsf f (sd_fields d) st1 b1 v1) as [[st2 b2] r2] eqn:Fl.
+    destruct (fields_loop depsf f (sd_fields d) st1 b1 v1 None) as [[st2 b2] r2] eqn:Fl.
     assert (R2 : R st1 b1 st2 b2).
     { eapply (fields_loop_inv (sd_fields d)); [|exact F1|exact Fl].
       intros sta ba nd sta' ba' ra Fa Hin Ha. eapply Hd; [exact Fa|apply in_map; exact Hin|exact Ha]. }
     pose proof (gframe_trans _ _ _ F1 (fields_loop_frame' _ _ _ _ _ _ _ _ _ Fl)) as F2.
     destruct r2 as [v2|e]; [|inversion H; subst; eapply R_trans; eassumption].
-    destruct (calls_loop depsf f (sd_calls d) st2 b2 v2) as [[st3 b3] r3] eqn:Cl.
+    destruct (calls_loop depsf f (sd_calls d) st2 b2 v2 None) as [[st3 b3] r3] eqn:Cl.
     assert (R3 : R st2 b2 st3 b3).
     { eapply (calls_loop_inv (sd_calls d)); [|exact F2|exact Cl].
       intros sta ba c sta' ba' ra Fa Hin Ha. eapply Hds; [exact Fa| |exact Ha].
@@ -2142,3 +2458,14 @@ Print Assumptions step_get_never_out_of_fuel.
 Print Assumptions get_err_not_cached.
 Print Assumptions get_touches_only_lower.
 Print Assumptions get_ctor_nonshared_init.
+Print Assumptions resolve_deps_all_evaluated.
+Print Assumptions resolve_deps_err_iff.
+Print Assumptions resolve_deps_err.
+Print Assumptions fields_loop_all_evaluated.
+Print Assumptions fields_loop_obj.
+Print Assumptions fields_loop_err.
+Print Assumptions calls_loop_all_evaluated.
+Print Assumptions calls_loop_obj.
+Print Assumptions calls_loop_nonobj_res.
+Print Assumptions calls_loop_err.
+Print Assumptions get_failing_ctor_err.
